@@ -26,7 +26,7 @@ MUTATIONS = [
         raise StructuralPropertyError(
             "Only smooth and decomposable circuits can be efficiently integrated.\"""", expect={"C03": ["R8:cirkit.symbolic.functional.integrate:non-"], "C09": ["R8:cirkit.symbolic.functional.integrate:non-"]}),
     dict(id="c03-replace-cond", file=FUN, old="""        if isinstance(sl, InputLayer) and sl.scope & scope:
-            func = registry.retrieve_rule(LayerOperator.INTEGRATION, type(sl))""", new="""        if isinstance(sl, InputLayer) and sl.scope <= scope:
+            func = registry.retrieve_rule(LayerOperator.INTEGRATION, type(sl))""", new="""        if isinstance(sl, InputLayer):
             func = registry.retrieve_rule(LayerOperator.INTEGRATION, type(sl))""", expect={"C03": ["replacement-condition"]}),
     dict(id="c03-metadata", file=FUN, old="""            operator=CircuitOperator.INTEGRATION,
             operands=(sc,),
@@ -50,10 +50,33 @@ MUTATIONS = [
     dict(id="c18-reset-guarded", file=PIPE, old="        assert self._token is not None\n        _PIPELINE_CONTEXT.reset(self._token)", new="        assert self._token is not None\n        if __exc_type is None:\n            _PIPELINE_CONTEXT.reset(self._token)", expect={"C18": ["R6a:cirkit.pipeline.PipelineContext.__exit__:_PIPELINE_CONTEXT:reset-on-all-paths"]}),
     dict(id="c18-registry-exit-dropped", file=PIPE, old="        self._op_registry.__exit__(__exc_type, __exc_value, __traceback)\n", new="        if __exc_type is None:\n            self._op_registry.__exit__(__exc_type, __exc_value, __traceback)\n", expect={"C18": ["R6a:cirkit.pipeline.PipelineContext.__exit__:wrapped:_op_registry"]}),
     dict(id="c18-bimap-side", file=ALGO, old="        return self._rhs_map[rhs]", new="        return self._lhs_map[rhs]", expect={"C18": ["R6c:cirkit.utils.algorithms.BiMap.get_right:own-side"]}),
-    dict(id="c18-compile-not-memoised", file=ACOMP, old="        if self.is_compiled(sc):\n            return self.get_compiled_circuit(sc)\n        return self.compile_pipeline(sc)", new="        return self.compile_pipeline(sc)", expect={"C18": ["R6b:cirkit.backend.compiler.AbstractCompiler.compile"]}),
+    dict(id="c18-compile-not-memoised", file=ACOMP, old="        if self.is_compiled(sc):\n            return self.get_compiled_circuit(sc)\n        return self.compile_pipeline(sc)", new="        return self.compile_pipeline(sc)", expect={"C18": ["R6b:cirkit.backend.compiler.AbstractCompiler.compile"], "C10": ["R6b:cirkit.backend.compiler.AbstractCompiler.compile"]}),
     dict(id="c18-pipeline-skip-check", file=COMP, old="            if self.is_compiled(sci):\n                continue\n", new="            if self.is_compiled(sci) and sci is sc:\n                continue\n", expect={"C18": ["R6b:cirkit.backend.torch.compiler.TorchCompiler.compile_pipeline:compile-once"], "C10": ["compile-once"]}),
     dict(id="c18-wrong-sf-op", file=PIPE, old="        conj_sc = SF.conjugate(sc, registry=self._op_registry)", new="        conj_sc = SF.conjugate(sc)", expect={"C18": ["R6d:cirkit.pipeline.PipelineContext.conjugate:registry"]}),
     dict(id="c18-multiply-swapped", file=PIPE, old="        prod_sc = SF.multiply(sc1, sc2, registry=self._op_registry)", new="        prod_sc = SF.multiply(sc2, sc1, registry=self._op_registry)", expect={"C18": ["R6d:cirkit.pipeline.PipelineContext.multiply:operand-order"]}),
     dict(id="c18-module-fn-drops-arg", file=PIPE, old="    return ctx.differentiate(cc, order=order)", new="    return ctx.differentiate(cc)", expect={"C18": ["R6d:cirkit.pipeline.differentiate:delegates"]}),
     dict(id="c18-register-before-postprocess", file=COMP, old="        cc = self._post_process_circuit(cc)\n\n        # Allocate & initialize the parameters\n        cc.reset_parameters()\n\n        # Register the compiled circuit\n        self.register_compiled_circuit(sc, cc)", new="        # Register the compiled circuit\n        self.register_compiled_circuit(sc, cc)\n        cc = self._post_process_circuit(cc)\n\n        # Allocate & initialize the parameters\n        cc.reset_parameters()", expect={"C18": ["R6b:cirkit.backend.torch.compiler.TorchCompiler._compile_circuit:registers-postprocessed"], "C10": ["registers-postprocessed"]}),
+    # ---------------------------------------------------------------- round 2 (post-fix tree)
+    dict(id="c05-scope-iter-unsorted", file="cirkit/utils/scope.py", old="        return iter(sorted(self._set))\n", new="        return iter(self._set)\n", expect={"C05": ["R7b:cirkit.symbolic.functional.differentiate:zip#1"]}),
+    dict(id="c05-diff-order-not-in-config", file=TNODES, old='        config["order"] = self.order\n', new="", expect={"C05": ["R3f:cirkit.backend.torch.parameters.nodes.TorchPolynomialDifferential:hyper:order"], "C02": ["R3f:cirkit.backend.torch.parameters.nodes.TorchPolynomialDifferential"], "C14": ["R3f:cirkit.backend.torch.parameters.nodes.TorchPolynomialDifferential"]}),
+    dict(id="c07-gaussian-drops-log-partition", file=OPS, old="mean=mean, stddev=stddev, log_partition=log_partition\n", new="mean=mean, stddev=stddev\n", expect={"C07": ["R2c:cirkit.symbolic.operators.conjugate_gaussian_layer:param=log_partition"]}),
+    dict(id="c08-factorization-subset-sort", file="cirkit/symbolic/circuit.py", old="sorted((sc.layer_scope(sli) for sli in sc.layer_inputs(sl)), key=_scope_sort_key)", new="sorted((sc.layer_scope(sli) for sli in sc.layer_inputs(sl)))", expect={"C08": ["R7a:cirkit.symbolic.circuit._scope_factorizations"]}),
+    dict(id="c08-onesided-compat", file="cirkit/symbolic/circuit.py", old="    for scope in sfs1.keys() & sfs2.keys():\n        fs1, fs2 = sfs1[scope], sfs2[scope]\n", new="    for scope, fs1 in sfs1.items():\n        fs2 = sfs2.get(scope, None)\n        if fs2 is None:\n            return False\n", expect={"C08": ["R7c:cirkit.symbolic.circuit._are_compatible:one-sided"]}),
+    dict(id="c08-rg-wrong-owner", file="cirkit/templates/region_graph/graph.py", old="            partition2_inputs = other.node_inputs(partition2)\n", new="            partition2_inputs = self.node_inputs(partition2)\n", expect={"C08": ["R7o:cirkit.templates.region_graph.graph.RegionGraph.is_compatible:self.node_inputs(partition2)"]}),
+    dict(id="c04-pairing-subset-sort", file=FUN, old="key=lambda sl: tuple(sorted(sc1.layer_scope(sl)))", new="key=sc1.layer_scope", expect={"C04": ["R7a:cirkit.symbolic.functional.multiply"]}),
+    dict(id="c04-kronecker-operands-swapped", file=OPS, old="KroneckerParameter(sl1.weight.shape, sl2.weight.shape), sl1.weight.ref(), sl2.weight.ref()", new="KroneckerParameter(sl1.weight.shape, sl2.weight.shape), sl2.weight.ref(), sl1.weight.ref()", expect={"C04": ["R2f:cirkit.symbolic.operators.multiply_sum_layers"]}),
+    dict(id="c20-hmm-by-position", file="cirkit/templates/pgms.py", old="        input_sl = input_factories[ordering[i]](Scope([ordering[i]]), num_latent_states)\n", new="        input_sl = input_factories[i](Scope([ordering[i]]), num_latent_states)\n", expect={"C20": ["R13a:cirkit.templates.pgms.hmm:input_factories@Scope([ordering[i]])"]}),
+    dict(id="c20-tt-enumerate-offset", file="cirkit/templates/tensor_factorizations.py", old="for i, dim in enumerate(shape[1:-1], start=1)", new="for i, dim in enumerate(shape[2:-1], start=1)", expect={"C20": ["R13a:cirkit.templates.tensor_factorizations.tensor_train:shape[2:-1]"]}),
+    dict(id="c11-logits-rank2", file="cirkit/backend/torch/layers/input.py", old="        return torch.logsumexp(logits, dim=2).unsqueeze(dim=1)\n", new="        return torch.logsumexp(logits, dim=2)\n", expect={"C11": ["R4:cirkit.backend.torch.layers.input.TorchCategoricalLayer:log_partition_function:return#1"]}),
+    dict(id="c11-gaussian-rank2", file="cirkit/backend/torch/layers/input.py", old="        return log_partition.unsqueeze(dim=1)  # (F, 1, K)\n", new="        return log_partition\n", expect={"C11": ["R4:cirkit.backend.torch.layers.input.TorchGaussianLayer:log_partition_function:return#1"]}),
+    dict(id="c17-foldwise-int-index", file="cirkit/backend/torch/initializers.py", old="            initializer_(t[i : i + 1])\n", new="            initializer_(t[i])\n", expect={"C17": ["R4:cirkit.backend.torch.initializers.foldwise_initializer_:apply#1"]}),
+    dict(id="c17-dirichlet-dim-dropped", file=RINI, old="functools.partial(dirichlet_, alpha=init.alpha, dim=axis)", new="functools.partial(dirichlet_, alpha=init.alpha)", expect={"C17": ["compile_dirichlet_initializer"]}),
+    dict(id="c16-partition-falls-through", file="cirkit/templates/region_graph/graph.py", old="                node_to_layer[node] = prod_sl\n                continue\n", new="                node_to_layer[node] = prod_sl\n", expect={"C16": ["R9:cirkit.templates.region_graph.graph.RegionGraph.build_circuit"]}),
+    dict(id="c02-gather-wrong-variable", file="cirkit/backend/torch/graph/folding.py", old="        ss = [type(module), *module.fold_settings]\n", new="        ss = [type(m), *m.fold_settings]\n", expect={"C02": ["R3d:cirkit.backend.torch.graph.folding.group_foldable_modules:gather"], "C06": ["R3d:cirkit.backend.torch.graph.folding.group_foldable_modules:gather"]}),
+    dict(id="c02-interior-output-fused", file="cirkit/backend/torch/graph/optimize.py", old="            if any(m in outputs for m in match.entries[1:]):\n                continue\n", new="", expect={"C02": ["R12a:cirkit.backend.torch.graph.optimize.match_optimization_patterns:interior-output"]}),
+    dict(id="c14-index-ignores-dim", file=TNODES, old="        return torch.index_select(x, self.dim + 1, self._indices)\n", new="        return x[:, self._indices]\n", expect={"C14": ["R5b:cirkit.backend.torch.parameters.nodes.TorchIndexParameter:used:dim"]}),
+    dict(id="c14-reduce-sum-unshifted", file=TNODES, old="        return torch.sum(x, dim=self.dim + 1)\n", new="        return torch.sum(x, dim=self.dim)\n", expect={"C14": ["R5a:"]}),
+    dict(id="c14-softmax-axis-dropped", file=RPAR, old="    return TorchSoftmaxParameter(in_shape, dim=p.axis)\n", new="    return TorchSoftmaxParameter(in_shape)\n", expect={"C14": ["R1c:cirkit.backend.torch.rules.parameters.compile_softmax_parameter"], "C01": ["R1c:cirkit.backend.torch.rules.parameters.compile_softmax_parameter"]}),
+    dict(id="c01-categorical-num-categories-dropped", file=RLAY, old="        num_categories=sl.num_categories,\n", new="", expect={"C01": ["R1c:cirkit.backend.torch.rules.layers.compile_categorical_layer"]}),
+    dict(id="c06-concatenate-reversed", file=FUN, old="    for sc in scs:\n", new="    for sc in reversed(scs):\n", expect={"C06": ["R7e:cirkit.symbolic.functional.concatenate:operand-order"]}),
 ]
